@@ -584,3 +584,22 @@ example :
     (List.range 12).map v.atFlat = [10, 4, 22, 16, 8, 2, 20, 14, 6, 0, 18, 12] ∧
     (List.range 12).map (fun k => v.addr (unravel v.shape k)) = [10, 4, 22, 16, 8, 2, 20, 14, 6, 0, 18, 12] := by
   decide
+
+/-! non-vacuity (Round 2): a Fortran-ordered and a C-contiguous 2×2 view of the same logical image `[[5,9],[3,1]]`, a 1×2
+    structuring element: the hypotheses of `C08_erode_layout_free` hold (compress = false), and the two runs of the
+    view-level `erode<uint8>` agree cell by cell and leave no cell unwritten. -/
+namespace Mahotas.C08.Example
+def memF : Int → Int := fun a => [5, 3, 9, 1].getD a.toNat 0
+def memC : Int → Int := fun a => [5, 9, 3, 1].getD a.toNat 0
+def memB : Int → Int := fun a => [1, 1].getD a.toNat 0
+def vF : View := { base := 0, shape := [2, 2], strides := [1, 2] }
+def vC : View := { base := 0, shape := [2, 2], strides := [2, 1], carray := true }
+def vB : View := { base := 0, shape := [1, 2], strides := [2, 1], carray := true }
+
+example : FilterArgs vF vB false ∧ FilterArgs vC vB false ∧ SameLogical memF vF memC vC ∧
+    erodeView (dtU 8) memF vF memB vB = erodeView (dtU 8) memC vC memB vB ∧
+    (erodeView (dtU 8) memF vF memB vB).toList = [some 4, some 4, some 2, some 0] := by
+  refine ⟨⟨⟨rfl, by decide⟩, ⟨rfl, by decide⟩, by (unfold View.Pos; decide), by (unfold View.Pos; decide), rfl, fun _ => rfl⟩,
+          ⟨⟨rfl, by decide⟩, ⟨rfl, by decide⟩, by (unfold View.Pos; decide), by (unfold View.Pos; decide), rfl, fun _ => rfl⟩,
+          ⟨rfl, by decide⟩, by decide, by decide⟩
+end Mahotas.C08.Example
